@@ -264,7 +264,8 @@ Definition w_abs (w : world) (h : N) := hs_abs (w_heap w) (w_tabs w) h.
 (* ---- compaction: one Compaction() call ---- *)
 Definition compactable (t : htable) : bool :=
   negb (t_rec t) &&
-  (N.of_nat (b_alloc (t_meta t)) * max_garbage_ratio_num <=? N.of_nat (b_garb (t_meta t)) * max_garbage_ratio_den)%N.
+  ((Nat.eqb (b_inuse (t_meta t)) 0 && Nat.ltb 0 (b_garb (t_meta t))) ||
+   (N.of_nat (b_alloc (t_meta t)) * max_garbage_ratio_num <=? N.of_nat (b_garb (t_meta t)) * max_garbage_ratio_den)%N).
 
 (* move the entries of the table with slab [blk] into the writable table: GetRaw (a copy), PutRaw, which
    also removes the old version; [ord] = the hkeys in the order Go's map iteration yields them *)
